@@ -57,8 +57,8 @@ def jobs(tier, seed):
                       defines={"OFV_P": p_, "OFV_Q": q_, "OFV_MODE": 0}, unwind=40, object_bits=12, timeout=1500, mem_gb=20, status="bounded", solver="kissat",
                       bound="p x q in %s, every matrix bit and right-hand side symbolic, symbol length 1" % (sym,)))
     conc = [(32, 31), (33, 32), (34, 33)] if tier == "quick" else [(q + 1, q) for q in (1, 2, 31, 32, 33, 63, 64, 65)]
-    for (p_, q_) in conc:
-        js.append(Job("solver.triangular.%dx%d" % (p_, q_), "solver_word_boundaries", "c18_solver.c", sfn, repo_sources=SOLV, checks=CHECKS,
-                      defines={"OFV_P": p_, "OFV_Q": q_, "OFV_MODE": 1}, unwind=p_ + 5, object_bits=12, timeout=1500 if tier == "quick" else 9000, mem_gb=8, status="bounded",
+    for (p_, q_, mode) in [(a, b, m) for (a, b) in conc for m in (1, 2)]:
+        js.append(Job("solver.%s_triangular.%dx%d" % ("lower" if mode == 1 else "upper", p_, q_), "solver_word_boundaries", "c18_solver.c", sfn, repo_sources=SOLV, checks=CHECKS,
+                      defines={"OFV_P": p_, "OFV_Q": q_, "OFV_MODE": mode}, unwind=p_ + 5, object_bits=12, timeout=1500 if tier == "quick" else 9000, mem_gb=8, status="bounded",
                       bound="concrete all-ones lower-triangular matrices with q in %s, right-hand sides symbolic" % ([q for _, q in conc],)))
     return js
